@@ -888,6 +888,49 @@ impl Family for Utf8Texts {
     }
 }
 
+/// what stands behind the user name of a handshake response: every length-prefix form (announcing 0
+/// .. 2^64-1 bytes, truncated prefixes) followed by 0..300 actual bytes, under every combination of
+/// the capability bits that give those bytes a meaning (secure connection, length-encoded auth data,
+/// database, plugin name, connection attributes). A server that starts reading them must not trust
+/// an announced length.
+struct HandshakeTails;
+const TAIL_CAPS: [u32; 5] = [0x0000_8000, 0x0020_0000, 0x0000_0008, 0x0008_0000, 0x0010_0000];
+impl HandshakeTails {
+    fn case(idx: u64) -> (u32, Vec<u8>, usize) {
+        let pf = LenencExtremes::prefixes();
+        let d = digits(idx, &[32, pf.len() as u64, LenencExtremes::AVAIL.len() as u64]);
+        let mut caps = 0x0000_0200 | 0x0000_0001; // CLIENT_PROTOCOL_41 | CLIENT_LONG_PASSWORD
+        for (i, c) in TAIL_CAPS.iter().enumerate() {
+            if d[0] & (1 << i) != 0 {
+                caps |= c;
+            }
+        }
+        (caps, pf[d[1] as usize].clone(), LenencExtremes::AVAIL[d[2] as usize])
+    }
+}
+impl Family for HandshakeTails {
+    fn name(&self) -> String {
+        "handshake-tails-with-every-length-prefix".into()
+    }
+    fn len(&self) -> u64 {
+        32 * LenencExtremes::prefixes().len() as u64 * LenencExtremes::AVAIL.len() as u64
+    }
+    fn run(&self, idx: u64, st: &mut Stats) -> Result<(), Violation> {
+        let (caps, pf, avail) = Self::case(idx);
+        st.nontrivial += 1;
+        st.bump("handshake_tail_cases");
+        let mut tail = pf.clone();
+        tail.extend((0..avail).map(|i| b'a' + (i % 26) as u8));
+        let mut s = frame(1, &handshake41(caps, 1 << 24, 0x21, b"u", &tail)).0;
+        s.extend_from_slice(&frame(0, &[COM_PING]).0);
+        judge(s, &format!("handshake response with capabilities {:#010x}, then {:02x?} and {} more bytes behind the user name", caps, pf, avail), st)
+    }
+    fn describe(&self, idx: u64) -> J {
+        let (caps, pf, avail) = Self::case(idx);
+        json!({"capabilities": format!("{:#010x}", caps), "length_prefix_hex": hex(&pf), "bytes_following": avail})
+    }
+}
+
 pub fn build(quick: bool) -> Check {
     let mut families: Vec<Box<dyn Family>> = Vec::new();
     for l in 1..=(if quick { 5 } else { 7 }) {
@@ -935,6 +978,7 @@ pub fn build(quick: bool) -> Check {
     }
     families.push(Box::new(Utf8Texts));
     families.push(Box::new(LenencExtremes));
+    families.push(Box::new(HandshakeTails));
     families.push(Box::new(LargeInputs::new(if quick { &[MAXP, MAXP + 7] } else { &[MAXP - 1, MAXP, MAXP + 7, 2 * MAXP, 2 * MAXP + 7] })));
     families.push(Box::new(FragmentIds {
         ids: if quick { vec![0, 1, 255] } else { vec![0, 1, 2, 127, 254, 255] },
@@ -951,6 +995,6 @@ pub fn build(quick: bool) -> Check {
         exhaustive: true,
         caps_hit: vec![],
         families,
-        required: vec!["utf8_texts", "lifecycle_inputs", "tls_garbage_cases", "length_prefix_cases", "large_inputs", "outcome_ok", "outcome_err", "executes_reaching_the_shim", "sequence_id_mutations", "length_field_mutations", "out_of_order_fragments", "block_prefixes"],
+        required: vec!["handshake_tail_cases", "utf8_texts", "lifecycle_inputs", "tls_garbage_cases", "length_prefix_cases", "large_inputs", "outcome_ok", "outcome_err", "executes_reaching_the_shim", "sequence_id_mutations", "length_field_mutations", "out_of_order_fragments", "block_prefixes"],
     }
 }
